@@ -33,7 +33,8 @@ def build(rnd):
     body_raise = rnd.choice([None, "ValueError", "KeyError", "ZeroDivisionError"]) if rnd.random() < .5 else None
     post = rnd.random() < .3
     src = "import deal\n"
-    for p, _ in pres: src += f"@deal.pre({p})\n"
+    pexc = rnd.choice([None, None, "ValueError", "KeyError"])      # a custom precondition error type that the body may raise too
+    for p, _ in pres: src += f"@deal.pre({p}{', exception=' + pexc if pexc else ''})\n"
     if raises: src += f"@deal.raises({raises})\n"
     if post: src += "@deal.post(lambda r: r != 12345)\n"
     src += f"def f({', '.join(n + ': ' + t for n, t in zip(names, types))}):\n"
@@ -67,6 +68,7 @@ def probe(seed, n):
         if c1 != c2: bad.append(["same seed, different cases", src, str(c1[:3]), str(c2[:3])])
         if len(c1) > count: bad.append(["more cases than requested", src, len(c1), count])
         rawpres = [eval(p) for p, _ in pres]
+        failing = []
         for args, kw in c1:
             stats["cases"] += 1
             kwd = dict(kw)
@@ -90,6 +92,7 @@ def probe(seed, n):
                 r = case(); out = ("ret", r)
             except BaseException as e:
                 out = ("exc", type(e).__name__)
+            if out[0] == "exc": failing.append(out[1])
             if exc is None:
                 if out != ("ret", direct): bad.append(["case() does not return the result", src, repr(full), repr(out)])
             else:
@@ -100,6 +103,14 @@ def probe(seed, n):
                 else:
                     stats["propagated"] += 1
                     if out != ("exc", type(exc).__name__): bad.append(["everything else must propagate", src, repr(full), repr(out), type(exc).__name__])
+        # the generated test (test form, same seed): fails iff one of its generated cases fails
+        try:
+            deal.cases(f, count=count, seed=s, kwargs=dict(fixed), check_types=False)(); verdict = None
+        except BaseException as e:
+            verdict = type(e).__name__
+        stats["tests_failed"] = stats.get("tests_failed", 0) + (verdict is not None)
+        if bool(failing) != (verdict is not None):
+            bad.append(["the generated test's verdict differs from its cases", src, "failing cases: " + str(failing[:3]), "test raised: " + str(verdict)])
     return {"bad": bad[:10], "nbad": len(bad), "stats": stats}
 
 def examples_probe():
